@@ -316,6 +316,9 @@ def canon(t, depth=0):
             return "closure(%s)" % norm_name(t[2]).split("::")[-1]
         return "%s(%s)" % (t[1], ", ".join(canon(v, d) for v in t[3]))
     if tag == "call":
+        if t[1] == "<I as std::iter::IntoIterator>::into_iter" and len(t[2]) == 1:
+            # the blanket impl for iterators is the identity: `for x in it` and `while let Some(x) = it.next()` read alike
+            return canon(t[2][0], d)
         sn = short(t[1])
         if sn in ("Option::expect", "Result::expect", "Result::expect_err") and len(t[2]) == 2:
             # the panic message is documentation, not behaviour
